@@ -142,6 +142,22 @@ def gen_jobs(base_seed, tier, budget=None):
     worlds = WORLDS_QUICK if tier == "quick" else WORLDS_THOROUGH
     n = budget if budget is not None else (3000 if tier == "quick" else 120000)
     jobs = []
+    # the recorded traces of the open known findings (DESIGN 6.2) are part of every batch, so that each
+    # listed finding is reproduced - and printed as KNOWN-FINDING - by every run, whatever the seed
+    import json as _json
+    import os as _os
+    from .. import VERIF_ROOT as _VR
+    for k_, fname in enumerate(("C12-rankdef.json", "C12-repeated.json", "C12-repeated-above_norm.json")):
+        try:
+            with open(_os.path.join(_VR, "findings", fname)) as f_:
+                doc = _json.load(f_)
+        except OSError:
+            continue
+        tr = dict(doc["trace"] if "trace" in doc else doc)
+        if tr.get("world") not in worlds:
+            tr["world"] = worlds[0]
+        tr.pop("compare_world", None)
+        jobs.append({"seed": int(tr.get("seed") or 0), "trace": tr})
     for i in range(n):
         seed = base_seed * 10 ** 6 + i
         jobs.append({"seed": seed, "trace": gen_trace(seed, worlds[i % len(worlds)], tier)})
